@@ -3,7 +3,9 @@ package main
 import (
 	"verif/drv"
 
+	_ "verif/props/c11"
 	_ "verif/props/c16"
+	_ "verif/props/c17"
 )
 
 func main() { drv.Main() }
